@@ -11,7 +11,7 @@ compared with brute-force enumeration of the start class.
 from . import search_common as S
 
 ID = "C01"
-QUICK_RUNS = 2400
+QUICK_RUNS = 6000
 CHUNK = 20
 THOROUGH_BUDGET_S = 900
 WATCHDOG = 45.0
